@@ -2,6 +2,10 @@
 import random
 import dbggen, dbgcommon
 
+# observations the property does not speak about: a difference in these alone breaks the correspondence
+# but is not an input on which the property fails (reported with no-failing-input-found)
+AUX = ('cmds differs',)
+
 ASSUMPTIONS = [
     "literal PC-relative offsets and the link value written by JSR/JSRR/CALL are left unspecified by the property; they are compared with the model only (which transcribes the code), never against the ISA",
 ]
@@ -68,7 +72,7 @@ def correspondence(ctx, violations, known_hits):
     rnd, specs = gen(ctx.tier, ctx.seed)
     cases, tags = dbgcommon.make_cases(rnd, specs)
     profiles = ("debug",) if ctx.tier == "quick" else ("debug", "release")
-    r = dbgcommon.run_dbg_cases(ctx, cases, tags, violations, profiles,
+    r = dbgcommon.run_dbg_cases(ctx, cases, tags, violations, profiles, aux=AUX,
                                 note="model: eval = execute(emit for the current PC) (C15_eval), label = the label's address wherever PC is (C15_label)")
     ctx.cleanup()
     return dbgcommon.coverage(r,
